@@ -26,6 +26,11 @@ VARIABLES train, links, pts
 vars == <<train, links, pts>>
 
 Min2(a, b) == IF a < b THEN a ELSE b
+Abs(a) == IF a < 0 THEN -a ELSE a
+(* min_speed (track/link/speed/speed_limit.rs:3): a limit may be written with a negative value (a sign-encoded variant *)
+(* the simulator enforces by magnitude); the combination keeps the smaller magnitude and is negative as soon as one   *)
+(* side is                                                                                                            *)
+MinSpeed(a, b) == IF a >= 0 /\ b >= 0 THEN Min2(a, b) ELSE -Min2(Abs(a), Abs(b))
 SetMin(S) == CHOOSE m \in S : \A c \in S : m <= c
 Range(s) == {s[i] : i \in 1..Len(s)}
 InsertAt(p, i, x) == SubSeq(p, 1, i-1) \o <<x>> \o SubSeq(p, i, Len(p))
@@ -64,10 +69,10 @@ Active(t, ls) == {kj \in UNION {{<<k, j>> : j \in 1..Len(ls[k].rs)} : k \in 1..L
 ----------------------------------------------------------------------------
 (* Level A *)
 Val(p, x) == LET I == {i \in 1..Len(p) : p[i][1] <= x}
-             IN IF I = {} THEN -1 ELSE p[CHOOSE i \in I : \A j \in I : j <= i][2]
+             IN IF I = {} THEN -1 ELSE Abs(p[CHOOSE i \in I : \A j \in I : j <= i][2])      \* enforced = magnitude
 
 Canon(t, ls, x) ==
-  SetMin({t.vmax} \cup {Glob(t, ls, kj[1], kj[2])[3] :
+  SetMin({t.vmax} \cup {Abs(Glob(t, ls, kj[1], kj[2])[3]) :
             kj \in {a \in Active(t, ls) : LET g == Glob(t, ls, a[1], a[2]) IN g[1] <= x /\ x < g[2]}})
 
 (* both sides are right-continuous step functions: comparing at every break of either decides *)
@@ -78,7 +83,7 @@ SafeOf(t, ls, p)  == \A x \in Breaks(t, ls, p) : Val(p, x) <= Canon(t, ls, x)
 ExactOf(t, ls, p) == \A x \in Breaks(t, ls, p) : Val(p, x) = Canon(t, ls, x)
 CanonicalOf(p)    == /\ Len(p) >= 1 /\ p[1][1] = 0
                      /\ \A i \in 1..(Len(p)-1) : p[i][1] <= p[i+1][1] /\ p[i][2] # p[i+1][2]
-PositiveOf(p)     == \A i \in 1..Len(p) : p[i][2] > 0
+PositiveOf(p)     == \A i \in 1..Len(p) : p[i][2] # 0
 
 Safe      == SafeOf(train, links, pts)          \* C02
 Exact     == ExactOf(train, links, pts)         \* C13 (first half)
@@ -89,7 +94,7 @@ Canonical == CanonicalOf(pts)                   \* C13 (second half)
 RECURSIVE LoopC(_, _, _, _)
 LoopC(p, is, ie, v) ==           \* "update and erase all speed points in range"
   IF is < ie THEN
-    LET new == Min2(p[is][2], v) IN
+    LET new == MinSpeed(p[is][2], v) IN
     IF is > 1 /\ p[is-1][2] = new THEN LoopC(RemoveAt(p, is), is, ie-1, v)
     ELSE LoopC([p EXCEPT ![is] = <<p[is][1], new>>], is+1, ie, v)
   ELSE <<p, is>>
@@ -98,7 +103,7 @@ Insert(p, s, e, v) ==
   LET n == Len(p) IN
   IF Variant = "fixed" /\ s = e THEN p ELSE      \* repair: a zero-length limit restricts nothing
   IF p[n][1] <= s THEN
-     LET old == p[n][2]  new == Min2(old, v) IN
+     LET old == p[n][2]  new == MinSpeed(old, v) IN
      IF old = new THEN p
      ELSE IF p[n][1] < s THEN p \o << <<s, new>>, <<e, old>> >>
      ELSE IF n > 1 /\ p[n-1][2] = new THEN [p EXCEPT ![n] = <<e, p[n][2]>>]
@@ -107,14 +112,14 @@ Insert(p, s, e, v) ==
      LET is0 == CHOOSE i \in 1..n : p[i][1] >= s /\ \A j \in 1..(i-1) : p[j][1] < s
          ie0 == CHOOSE i \in 1..n : p[i][1] <= e /\ \A j \in (i+1)..n : p[j][1] > e
          \* "if the speed starts at an offset not already in speeds"
-         doA == s < p[is0][1] /\ p[is0-1][2] # Min2(p[is0-1][2], v)
-         pA  == IF doA THEN InsertAt(p, is0, <<s, Min2(p[is0-1][2], v)>>) ELSE p
+         doA == s < p[is0][1] /\ p[is0-1][2] # MinSpeed(p[is0-1][2], v)
+         pA  == IF doA THEN InsertAt(p, is0, <<s, MinSpeed(p[is0-1][2], v)>>) ELSE p
          isA == IF doA THEN is0+1 ELSE is0
          ieA == IF doA THEN ie0+1 ELSE ie0
          \* "if the old speed does not end at offset end": the pinned code reads the old speed
          \* AFTER idx_end was bumped (it may then be the point just inserted); the repair reads it before
          oldE == IF Variant = "fixed" THEN p[ie0][2] ELSE pA[ieA][2]
-         doB == pA[ieA][1] < e /\ oldE # Min2(oldE, v)
+         doB == pA[ieA][1] < e /\ oldE # MinSpeed(oldE, v)
          pB  == IF doB THEN InsertAt(pA, ieA+1, <<e, oldE>>) ELSE pA
          ieB == IF doB THEN ieA+1 ELSE ieA
          rC  == LoopC(pB, isA, ieB, v)
